@@ -662,4 +662,108 @@ theorem wellScoped_in (p : Char → Bool) (sc : Scope) (g : VIn) (hl : LocalsOk 
   simp only [checkL2_append, c1, c2, c3]
   exact c4
 
+
+/-! ### the scope of the generated function satisfies `LocalsOk` by construction -/
+
+theorem bindsAll_eq (p : Char → Bool) (g : VIn) : bindsAll p g =
+    (headStmts g).flatMap S2.binds ++ ((fieldBlock p g).flatMap S2.binds ++ ((afterStmts p g).flatMap S2.binds ++
+      (tailStmts g).flatMap S2.binds)) := by
+  simp [bindsAll, genBody, List.flatMap_append]
+
+theorem field_binds_sub (p : Char → Bool) (g : VIn) : ∀ (fs : List VField) (f : VField), f ∈ fs →
+    ∀ n ∈ (fieldStmts p g f).flatMap S1.binds, n ∈ (allFieldStmts p g fs).flatMap S1.binds
+  | [], _, h, _, _ => by cases h
+  | f' :: r, f, h, n, hn => by
+    simp only [allFieldStmts, List.flatMap_append, List.mem_append]
+    rcases List.mem_cons.1 h with h | h
+    · subst h; exact Or.inl hn
+    · exact Or.inr (field_binds_sub p g r f h n hn)
+
+theorem block_binds (p : Char → Bool) (g : VIn) (f : VField) (hf : f ∈ g.fields) :
+    ∀ n, (n ∈ (fieldStmts p g f).flatMap S1.binds ∨ n = t "e") → n ∈ (fieldBlock p g).flatMap S2.binds := by
+  intro n hn
+  unfold fieldBlock
+  cases hfs : g.fields with
+  | nil => rw [hfs] at hf; cases hf
+  | cons f0 r =>
+    simp only [List.flatMap_cons, List.flatMap_nil, List.append_nil, S2.binds, List.flatMap_append, List.mem_append, asNames,
+      List.mem_singleton]
+    rcases hn with h | h
+    · exact Or.inl (Or.inl (Or.inr (field_binds_sub p g (f0 :: r) f (by rw [← hfs]; exact hf) n h)))
+    · exact Or.inl (Or.inr h)
+
+theorem field_binds_field (p : Char → Bool) (g : VIn) (f : VField) : t "field" ∈ (fieldStmts p g f).flatMap S1.binds := by
+  simp only [fieldStmts, List.flatMap_cons, List.flatMap_nil, List.append_nil, S1.binds, List.mem_append, lookupLine]
+  refine Or.inl ?_
+  cases f.lookup <;> simp [S0.binds, partsBinds, fieldLit]
+
+theorem field_binds_v1 (p : Char → Bool) (g : VIn) (f : VField) (h1 : f.lookup ≠ .anyOf []) (h2 : f.lookup ≠ .pathAnyOf []) :
+    t "v1" ∈ (fieldStmts p g f).flatMap S1.binds := by
+  simp only [fieldStmts, List.flatMap_cons, List.flatMap_nil, List.append_nil, S1.binds, List.mem_append, lookupLine]
+  cases hlk : f.lookup with
+  | assign k => exact Or.inl (by simp [S0.binds, partsBinds, getPart])
+  | pathAssign ps => exact Or.inl (by simp [S0.binds, partsBinds, pathPart])
+  | anyOf ks =>
+    cases ks with
+    | nil => exact absurd hlk h1
+    | cons k r => exact Or.inr (Or.inl (Or.inl (by simp [condWrites, hlk])))
+  | pathAnyOf ps =>
+    cases ps with
+    | nil => exact absurd hlk h2
+    | cons k r => exact Or.inr (Or.inl (Or.inl (by simp [condWrites, hlk])))
+
+theorem field_binds_expr (p : Char → Bool) (g : VIn) (f : VField) :
+    ∀ n ∈ (exprPart f).writes, n ∈ (fieldStmts p g f).flatMap S1.binds := by
+  intro n hn
+  simp only [fieldStmts, List.flatMap_cons, List.flatMap_nil, List.append_nil, S1.binds, List.mem_append]
+  refine Or.inr (Or.inr ?_)
+  simp only [assignLine, S0.binds, partsBinds, assignParts, List.flatMap_append, List.mem_append, List.flatMap_cons, List.flatMap_nil,
+    List.append_nil]
+  exact Or.inr hn
+
+theorem localsOk_genScope (p : Char → Bool) (g : VIn) (outer : List S) (hk : LookupsOk g) : LocalsOk (genScope p g outer) g := by
+  have hb : ∀ n, n ∈ bindsAll p g → n ∈ (genScope p g outer).locals := fun n hn => by simp [genScope, hn]
+  have inBlock : ∀ n, n ∈ (fieldBlock p g).flatMap S2.binds → n ∈ (genScope p g outer).locals := fun n hn =>
+    hb n (by rw [bindsAll_eq]; simp [hn])
+  have ne_mem : g.fields ≠ [] → ∃ f, f ∈ g.fields := fun h => by
+    cases hfs : g.fields with
+    | nil => exact absurd hfs h
+    | cons f r => exact ⟨f, by simp⟩
+  refine ⟨by simp [genScope], ?_, ?_, ?_, ?_, ?_, ?_, ?_, ?_, ?_⟩
+  · intro h
+    refine hb _ (by rw [bindsAll_eq]; refine List.mem_append_left _ ?_; unfold headStmts
+                    cases g.preFromDict <;> cases g.preAssign <;> simp [h, S2.binds, S1.binds, S0.binds, partsBinds, kwPart])
+  · intro h
+    refine hb _ (by rw [bindsAll_eq]; refine List.mem_append_left _ ?_; unfold headStmts
+                    cases g.preFromDict <;> cases g.hasDefaults <;> simp [h, S2.binds, S1.binds, S0.binds, partsBinds, iPart])
+  · intro h
+    obtain ⟨f, hf⟩ := ne_mem h
+    exact inBlock _ (block_binds p g f hf _ (Or.inl (field_binds_field p g f)))
+  · intro h
+    obtain ⟨f, hf⟩ := ne_mem h
+    exact inBlock _ (block_binds p g f hf _ (Or.inl (field_binds_v1 p g f (hk f hf).1 (hk f hf).2)))
+  · intro h
+    obtain ⟨f, hf⟩ := ne_mem h
+    exact inBlock _ (block_binds p g f hf _ (Or.inr rfl))
+  · intro f hf hd
+    exact inBlock _ (block_binds p g f hf _ (Or.inl (field_binds_expr p g f _ (by simp [exprPart, hd]))))
+  · intro f hf n hn
+    exact inBlock _ (block_binds p g f hf _ (Or.inl (field_binds_expr p g f _ (by simp [exprPart, hn]))))
+  · intro n idx hca
+    refine hb _ (by rw [bindsAll_eq]; refine List.mem_append_right _ (List.mem_append_right _ (List.mem_append_left _ ?_))
+                    simp [afterStmts, hca, S2.binds, S1.binds, S0.binds, partsBinds, catchReqPart])
+  · intro hca hun
+    refine hb _ (by rw [bindsAll_eq]; refine List.mem_append_right _ (List.mem_append_right _ (List.mem_append_left _ ?_))
+                    unfold afterStmts
+                    cases hu : g.unknown with
+                    | none => exact absurd hu hun
+                    | raise => simp [hca, S2.binds, S1.binds, S0.binds, partsBinds, extraKeysPart, raiseUnknown]
+                    | warn => simp [hca, S2.binds, S1.binds, S0.binds, partsBinds, extraKeysPart, warnPart])
+
+/-- **the v1 load function generated for any class is well scoped under Python's rule**, provided each field's value expression
+reads only `v1` and outside names and the outside names the skeleton itself uses are held outside and bound nowhere in the body -/
+theorem wellScoped_all (p : Char → Bool) (g : VIn) (outer : List S) (hk : LookupsOk g)
+    (ho : OuterOk (genScope p g outer) g) (he : ExprsOk (genScope p g outer) g) : wellScoped p g outer = true :=
+  wellScoped_in p (genScope p g outer) g (localsOk_genScope p g outer hk) ho he hk
+
 end DW.GenLoadV1
